@@ -164,7 +164,7 @@ impl PartitionConfirmationState {
         // Update the event's confirmation status
         event.confirmation_count = confirmation_count;
         event.last_attempt = now;
-        event.attempts += 1;
+        event.attempts = event.attempts.saturating_add(1);
 
         // Check if we can advance the watermark
         let required_quorum = (replication_factor / 2) + 1;
